@@ -85,6 +85,18 @@ class C13(InterpProp):
                     op[2] = op[2] + fine
             case.payload['no_model'] = True
             case.model_ok = False
+        elif rnd.random() < 0.1 and not case.payload.get('history'):
+            # the clock shows seconds since the epoch (a quarter past, exact in a float) or integer ticks beyond 2**53:
+            # time is the clock value sampled, and time predicates are about differences
+            off = rnd.choice([1790000000.25, 2 ** 53 + 1, 10 ** 15 + 7])
+            for op in case.payload['ops']:
+                if op[0] in ('exec', 'setclock'):
+                    op[2] = op[2] + off
+                elif op[0] == 'create':
+                    op[4] = op[4] + off
+            if isinstance(off, float):
+                case.payload['no_model'] = True
+                case.model_ok = False
         return case
 
     def make_ops(self, rnd, knobs, sc):
